@@ -220,6 +220,7 @@ Apply(k, newidx, newver) ==
 \*   "unka" applied, outcome reported unknown      (fault)
 \*   "unkn" not applied, outcome reported unknown  (fault)
 Answers == IF faults < FaultBudget THEN {"ok"} \cup (FaultKinds \ {"rerr"}) ELSE {"ok"}   \* ("rerr" is a fault of a read, see DeleteGet)
+ReadAnswers == {"ok"} \cup (IF faults < FaultBudget THEN FaultKinds \cap {"rerr"} ELSE {})
 IsFault(a) == a # "ok"
 Applied(a) == a \in {"ok", "unka"}
 ResOf(a) == CASE a = "ok" -> "ok" [] a = "err" -> "err" [] OTHER -> "unk"
@@ -285,7 +286,6 @@ CreatePine(w) ==
     /\ UNCHANGED <<floor, dealt, committed, slot, wops, wi, seqvars, chan, cache, rvars, xvars, acked, maxRet, emitted, kinit, rdvars, cvars>>
 
 \* engines whose conflict carries no value: read the index               gate: kv.get
-ReadAnswers == {"ok"} \cup (IF faults < FaultBudget THEN FaultKinds \cap {"rerr"} ELSE {})
 CreateGet(w) ==
     /\ wpc[w] = "c_get"
     /\ \E a \in ReadAnswers :
@@ -436,14 +436,24 @@ Notify(w) ==
     /\ UNCHANGED <<store, floor, dealt, committed, wloc, wops, seqvars, chan, cache, rvars, faults, xvars, emitted, kinit, rdvars, cvars>>
 
 \* failed condition of update / delete: read the newest version and return     gate: kv.iter
+\* (fault kind "rerr": an update answers with the error; a delete answers "not succeeded" with the version it had read first)
 ReGet(w) ==
     /\ wpc[w] = "reget"
-    /\ LET l == LatestK(Op(w).key)  r == wloc[w].rev IN
-       IF IsLive(l)
-       THEN Return(w, IF l.rev > r THEN l.rev ELSE r, l.rev, l.val)
-       ELSE Return(w, r, 0, "-")     \* deleted meanwhile: no current key-value (update and, since the repair of D23, delete)
-    /\ H(w, "ReGet", "kv.iter")
-    /\ UNCHANGED <<store, floor, dealt, committed, slot, wloc, wops, seqvars, chan, cache, rvars, faults, xvars, emitted, kinit, rdvars, cvars>>
+    /\ \E a \in ReadAnswers :
+      /\ faults' = IF a = "rerr" THEN faults + 1 ELSE faults
+      /\ HF(w, "ReGet", "kv.iter", IF a = "rerr" THEN "rerr" ELSE "", 0)
+      /\ LET l == LatestK(Op(w).key)  r == wloc[w].rev IN
+         IF a = "rerr" /\ Op(w).type = "update"
+         THEN /\ acked' = acked \cup {[AckRec(w, r, 0, "-") EXCEPT !.res = "err"]}
+              /\ maxRet' = IF r > maxRet THEN r ELSE maxRet
+              /\ wi' = [wi EXCEPT ![w] = @ + 1]
+              /\ wpc' = [wpc EXCEPT ![w] = "idle"]
+         ELSE IF a = "rerr"
+         THEN Return(w, r, wloc[w].mod, wloc[w].oldval)
+         ELSE IF IsLive(l)
+         THEN Return(w, IF l.rev > r THEN l.rev ELSE r, l.rev, l.val)
+         ELSE Return(w, r, 0, "-")     \* deleted meanwhile: no current key-value (update and, since the repair of D23, delete)
+    /\ UNCHANGED <<store, floor, dealt, committed, slot, wloc, wops, seqvars, chan, cache, rvars, xvars, emitted, kinit, rdvars, cvars>>
 
 WriterNext(w) ==
     \/ CreateDeal(w) \/ CreatePine(w) \/ CreateGet(w) \/ CreatePine2(w) \/ CreateCas(w) \/ CreateReGet(w)
